@@ -329,9 +329,23 @@ pub fn concat(tr: &mut Tr, rng: &mut SmallRng, codes: &[CodeSpec], dense: u64, n
                 img.push(0);
             }
             let cands: Vec<&RCfg> = rcfgs.iter().filter(|r| r.le == le).collect();
-            for _ in 0..nreaders {
+            // codes with decoding tables: whether a table may be used depends on the reader's look-ahead,
+            // so one reader of every class (buffered over 8/16/32/64-bit words, unbuffered); others: random
+            let tabled = matches!(c.f, Fam::Gamma | Fam::Delta) || (c.f == Fam::Zeta && c.k == 3);
+            let mut chosen: Vec<&RCfg> = vec![];
+            if tabled {
+                for (kind, w) in [("buf", 8usize), ("buf", 16), ("buf", 32), ("buf", 64), ("unbuf", 64)] {
+                    let cl: Vec<&&RCfg> = cands.iter().filter(|r| r.kind == kind && r.w == w).collect();
+                    if !cl.is_empty() {
+                        chosen.push(*cl[rng.random_range(0..cl.len())]);
+                    }
+                }
+            }
+            while chosen.len() < nreaders {
+                chosen.push(cands[rng.random_range(0..cands.len())]);
+            }
+            for rcfg in chosen {
                 tr.reset();
-                let rcfg = cands[rng.random_range(0..cands.len())];
                 let mut rd = TRd::new(tr, rcfg, &img);
                 let cloneable = rd.r.try_clone().is_some();
                 for (_, item) in &starts {
